@@ -208,6 +208,16 @@ def _is_ro_marking(key, b, a):
     return False
 
 
+def _deriv_of_broadcast(key, bcast):
+    """the object at key is a derivative of an object that the call broadcast: as_readonly marks the derivatives of
+    a read-only object too ("a read-only object never carries writable derivatives"), so marking the broadcast
+    operand read-only includes its derivatives — also when broadcast_to then raises for an incompatible shape (the
+    marking precedes the shape validation)"""
+    root, path = key[0], key[1]
+    j = path.rfind('.d_d')
+    return j >= 0 and (root, path[:j]) in bcast
+
+
 def _describe(key):
     root, path, field = key
     if root.startswith('const:'):
@@ -232,7 +242,7 @@ def oracle_call(case):
             # the one documented side effect: this very object (or this very ndarray, held by a clone/wod twin) was
             # broadcast to another shape during the call and has been marked read-only (WRITEABLE True->False,
             # _readonly_ False->True) ...
-            if (key[0], key[1]) in r['bcast']:
+            if (key[0], key[1]) in r['bcast'] or _deriv_of_broadcast(key, r['bcast']):
                 continue
             if key[2].endswith('.writeable'):
                 if (key[0], key[1], key[2][:-10]) in r['bcast']:
